@@ -206,10 +206,39 @@ def bdf_restart_rule(rep, f):
     if len(arms) != 2:
         rep.inconc("R-MODIFIED-REEVAL", "R-MODIFIED-REEVAL:%s:bdf-arms" % fn, "expected 2 ModifiedSolution arms, found %d" % len(arms))
         return
+    dir_ids0 = {l["pat"]["id"] for l in tast.find(body["body"], lambda z: z.get("k") == "Let" and z["pat"].get("k") == "PBind" and z.get("init") is not None
+                                                   and z["init"].get("k") == "MethodCall" and z["init"].get("name") == "signum")}
+    delegated = []
     for j, a in enumerate(arms):
         b = a["body"]
         key = "R-MODIFIED-REEVAL:%s:history-restart:%s" % (fn, "initial" if j == 0 else "per-step")
         probs = []
+        # the restart may be delegated to a private helper that receives the difference table mutably
+        helper_calls = [c for c in tast.find(b, lambda z: z.get("k") == "Call" and (z.get("def") or "") in f.bodies and (z.get("def") or "").startswith("methods::") and (z.get("def") or "") != "methods::hinit")
+                        if any(a_.get("k") == "AddrOf" and a_.get("mut") and "Vec<f64>" in (a_.get("ty") or "") for a_ in c["args"])]
+        if helper_calls:
+            c = helper_calls[0]
+            hb = f.bodies[c["def"]]
+            hp = [p_ for p_ in hb.get("params", []) if p_.get("k") == "PBind"]
+            ok_order = tast.contains(b, lambda x: x.get("k") == "Assign" and x["l"].get("k") == "Path" and x["r"].get("k") == "Lit" and str(x["r"].get("v")) == "1" and "usize" in (x["l"].get("ty") or ""))
+            d0 = tast.contains(hb["body"], lambda x: x.get("k") == "MethodCall" and x.get("name") in ("copy_from_slice", "clone_from_slice"))
+            d1s = tast.find(hb["body"], lambda x: x.get("k") == "Assign" and tast.contains(x["r"], lambda z: z.get("k") == "Binary" and z.get("op") == "Mul"))
+            zero = tast.contains(hb["body"], lambda x: x.get("k") == "MethodCall" and x.get("name") == "fill" and x["args"] and x["args"][0].get("k") == "Lit" and float(x["args"][0]["v"]) == 0.0)
+            dir_ok = False
+            for st_ in d1s:
+                for k_, p_ in enumerate(hp):
+                    if (p_.get("ty") or "") == "f64" and tast.contains(st_["r"], lambda z: z.get("k") == "Path" and z.get("id") == p_["id"]) and k_ < len(c["args"]):
+                        arg = c["args"][k_]
+                        if arg.get("k") == "Path" and arg.get("id") in dir_ids0:
+                            dir_ok = True
+            if ok_order and d0 and d1s and zero and dir_ok:
+                rep.ok("R-MODIFIED-REEVAL", key, "restart delegated to %s: row 0 reloaded, row 1 rebuilt with the direction, higher rows cleared, order <- 1" % c["def"].split("::")[-1])
+                rep.ok("R-MODIFIED-REEVAL", key + ":direction", "the helper's first difference is multiplied by the direction passed at the call site")
+            else:
+                rep.inconc("R-MODIFIED-REEVAL", key, "the history restart is delegated to %s, whose body this rule cannot match (order reset %s, row-0 copy %s, row-1 product %s, zero fill %s, direction %s)"
+                           % (c["def"].split("::")[-1], ok_order, d0, bool(d1s), zero, dir_ok), a.get("sp"))
+            delegated.append(tast.render(c))
+            continue
         # order = 1
         if not tast.contains(b, lambda x: x.get("k") == "Assign" and x["l"].get("k") == "Path" and x["l"].get("name") == "order"
                              and x["r"].get("k") == "Lit" and str(x["r"].get("v")) == "1"):
@@ -247,6 +276,13 @@ def bdf_restart_rule(rep, f):
     dir_ids = {l["pat"]["id"] for l in tast.find(body_all, lambda z: z.get("k") == "Let" and z["pat"].get("k") == "PBind" and z.get("init") is not None
                                                  and z["init"].get("k") == "MethodCall" and z["init"].get("name") == "signum")}
     forms = []
+    if len(delegated) == 2:
+        key = "R-MODIFIED-REEVAL:%s:history-restart:d1-siblings" % fn
+        if delegated[0] == delegated[1]:
+            rep.ok("R-MODIFIED-REEVAL", key, "both restarts call %s" % delegated[0][:80])
+        else:
+            rep.violation("R-MODIFIED-REEVAL", key, "the initial and the per-step ModifiedSolution restarts call the helper differently: %s vs %s" % (delegated[0][:80], delegated[1][:80]), arms[1].get("sp"))
+        return
     for j, a in enumerate(arms):
         st = [x for x in tast.find(a["body"], lambda z: z.get("k") == "Assign" and z["l"].get("k") == "Index" and z["l"]["e"].get("k") == "Index"
                                    and z["l"]["e"]["i"].get("k") == "Lit" and str(z["l"]["e"]["i"].get("v")) == "1")]
